@@ -154,3 +154,90 @@ Qed.
 
 Lemma py_sorted_str_length l : length (py_sorted_str l) = length l.
 Proof. apply Permutation_length, py_sorted_str_perm. Qed.
+
+(* ------------------------------------------------------------------ path and suffix primitives
+   (Verifier.get_module_name / the modulefilename assembly; posixpath semantics, '/' = 47) *)
+
+(* os.path.basename(p): what follows the last '/' *)
+Definition py_basename (p : str) : str :=
+  fold_left (fun acc c => if c =? 47 then [] else acc ++ [c]) p [].
+
+(* os.path.join(a, b), two arguments *)
+Definition py_path_join (a b : str) : str :=
+  if py_startswith b [47] then b
+  else match List.rev a with
+       | [] => b
+       | c :: _ => if c =? 47 then a ++ b else a ++ [47] ++ b
+       end.
+
+(* x.endswith(s) *)
+Definition py_endswith (x s : str) : bool := py_startswith (List.rev x) (List.rev s).
+
+(* l[0] for the result of a split (never empty; [] stands for IndexError, unreachable there) *)
+Definition py_item0 (l : list str) : str := match l with x :: _ => x | [] => [] end.
+
+(* x[:-n] for a constant n > 0 *)
+Definition py_slice_to_neg (n : nat) (x : str) : str := firstn (length x - n) x.
+
+Definition no_char (c : N) (s : str) := Forall (fun d => d <> c) s.
+
+Lemma basename_fold_noslash : forall s acc, no_char 47 s ->
+  fold_left (fun acc c => if c =? 47 then [] else acc ++ [c]) s acc = acc ++ s.
+Proof.
+  induction s as [|c s IH]; intros acc H; cbn [fold_left].
+  - now rewrite app_nil_r.
+  - inversion H as [|? ? Hc Hs]; subst. assert (c =? 47 = false) as -> by lia.
+    rewrite IH by exact Hs. rewrite <- app_assoc. reflexivity.
+Qed.
+
+Lemma py_basename_noslash s : no_char 47 s -> py_basename s = s.
+Proof. intros H. unfold py_basename. now rewrite basename_fold_noslash. Qed.
+
+Lemma py_basename_after_slash d s : no_char 47 s -> py_basename (d ++ [47] ++ s) = s.
+Proof.
+  intros H. unfold py_basename. rewrite !fold_left_app. cbn [fold_left].
+  assert (47 =? 47 = true) as -> by reflexivity. now rewrite basename_fold_noslash.
+Qed.
+
+Lemma py_basename_join a b : no_char 47 b -> py_basename (py_path_join a b) = b.
+Proof.
+  intros H. unfold py_path_join.
+  destruct b as [|c b'] eqn:Eb.
+  - cbn [py_startswith]. destruct (List.rev a) as [|x r] eqn:Er.
+    + reflexivity.
+    + destruct (x =? 47) eqn:Ex.
+      * rewrite app_nil_r. assert (a = List.rev r ++ [47]) as ->.
+        { rewrite <- (rev_involutive a), Er. cbn [List.rev]. f_equal. f_equal. lia. }
+        apply (py_basename_after_slash (List.rev r) []). constructor.
+      * cbn [app]. rewrite app_nil_r. apply (py_basename_after_slash a []). constructor.
+  - rewrite <- Eb in *. assert (py_startswith b [47] = false) as ->.
+    { subst b. inversion H; subst. cbn [py_startswith]. destruct b'; cbn [py_startswith]; lia. }
+    destruct (List.rev a) as [|x r] eqn:Er.
+    + now apply py_basename_noslash.
+    + destruct (x =? 47) eqn:Ex.
+      * assert (a = List.rev r ++ [47]) as ->.
+        { rewrite <- (rev_involutive a), Er. cbn [List.rev]. f_equal. f_equal. lia. }
+        rewrite <- app_assoc. now apply py_basename_after_slash.
+      * now apply py_basename_after_slash.
+Qed.
+
+(* x.split(c, 1)[0]: the part before the first c *)
+Lemma break_at_nochar c a : forall r, no_char c a -> break_at c (a ++ c :: r) = (a, Some r).
+Proof.
+  induction a as [|x a IH]; intros r H.
+  - change (break_at c (c :: r) = ([], Some r)). unfold break_at. assert (c =? c = true) as -> by lia. reflexivity.
+  - inversion H as [|? ? Hx Ha]; subst. change (break_at c (x :: (a ++ c :: r)) = (x :: a, Some r)).
+    cbn [break_at]. assert (x =? c = false) as -> by lia. now rewrite IH.
+Qed.
+
+Lemma break_at_nochar_all c a : no_char c a -> break_at c a = (a, None).
+Proof.
+  induction a as [|x a IH]; intros H; cbn [break_at]; auto.
+  inversion H as [|? ? Hx Ha]; subst. assert (x =? c = false) as -> by lia. now rewrite IH.
+Qed.
+
+Lemma split1_item0_before c a r : no_char c a -> py_item0 (py_split1 c (a ++ c :: r)) = a.
+Proof. intros H. unfold py_split1. now rewrite break_at_nochar. Qed.
+
+Lemma split1_item0_none c a : no_char c a -> py_item0 (py_split1 c a) = a.
+Proof. intros H. unfold py_split1. now rewrite break_at_nochar_all. Qed.
